@@ -537,6 +537,12 @@ class Gen:
     def switch(self, env, depth, ty):
         self.features.add("switch")
         subject = self.expr(env, depth, NUM) if self.r.random() < 0.5 else ["num", self.r.randint(0, 4)]
+        # one switch in five selects on strings whose spellings differ only in letter case: labels match exactly (isEqualTo)
+        spool = ["a", "A", "ab", "Ab", "aB"] if self.r.random() < 0.2 else None
+        label = (lambda: ["str", self.r.choice(spool)]) if spool else (lambda: ["num", self.r.randint(0, 4)])
+        if spool:
+            self.features.add("switch-string")
+            subject = ["str", self.r.choice(spool)]
         items = []
         env.scopes.append({})
         n = self.r.randint(1, 4)
@@ -549,12 +555,12 @@ class Gen:
             elif r < 0.3:
                 items.append(["t", self.marker(), None])
             elif r < 0.5:
-                items.append(["case", ["num", self.r.randint(0, 4)], None])  # fall-through
+                items.append(["case", label(), None])  # fall-through
             else:
-                items.append(["case", ["num", self.r.randint(0, 4)], self.block(env, depth + 1, ty, ty, named_ok=False)])
+                items.append(["case", label(), self.block(env, depth + 1, ty, ty, named_ok=False)])
         # a trailing fall-through would leave a dangling case: close it
         if items and items[-1][0] == "case" and items[-1][2] is None:
-            items.append(["case", ["num", self.r.randint(0, 4)], self.block(env, depth + 1, ty, ty, named_ok=False)])
+            items.append(["case", label(), self.block(env, depth + 1, ty, ty, named_ok=False)])
         if not have_default and self.r.random() < 0.5:
             items.append(["default", self.block(env, depth + 1, ty, ty, named_ok=False)])
             have_default = True
